@@ -239,7 +239,7 @@ func vf07Worker(t *testing.T, lines []string) (out []string) {
 			cluster.SetPassword("alice", vf07Password(1), true)
 			cluster.SetPassword("bob", vf07Password(2), true)
 			store = vf07NewStore()
-			authn, err = New(cluster.URLs(), []string{vfldapsrv.BindPattern}, 1, cluster.RootCAs, store, nil)
+			authn, err = New(cluster.URLs(), []string{vfldapsrv.BindPattern}, vfldapsrv.ClientTimeoutSecs, cluster.RootCAs, store, nil)
 			if err != nil {
 				t.Error(err)
 				return
@@ -251,7 +251,7 @@ func vf07Worker(t *testing.T, lines []string) (out []string) {
 				bad = true
 				break
 			}
-			authn, err = New(cluster.URLs(), pats, 1, cluster.RootCAs, store, nil)
+			authn, err = New(cluster.URLs(), pats, vfldapsrv.ClientTimeoutSecs, cluster.RootCAs, store, nil)
 			if err != nil {
 				t.Error(err)
 				return
